@@ -1,114 +1,22 @@
 """C13 — back-off schedules: translated iterator body, proofs in Coq, differential run of the
 real iterator against the extracted model and the law."""
-import os
-import re
 from verif import *
 
 THEOREMS = ['c13_schedule_meets_law', 'c13_never_panics', 'c13_count', 'c13_numbering_and_delay',
             'c13_prefix_is_schedule_prefix', 'c13_clamped', 'c13_law_exact', 'c13_saturates']
 
 
-def judge(check, trace_files, label):
-    """runs the driver over trace files in parallel; returns aggregated summary and failing lines"""
-    outs = [t + '.verdict' for t in trace_files]
-    rcs = run_parallel([([os.path.join(OCAML, 'driver'), 'c13', t], o) for t, o in zip(trace_files, outs)])
-    agg = {'cases': 0, 'corr_fail': 0, 'prop_fail': 0, 'nontrivial': 0, 'skipped': 0,
-           'saturated_items': 0, 'clamped_items': 0, 'exhausted_cases': 0}
-    kinds = {}
-    failing = []
-    for rc, o, t in zip(rcs, outs, trace_files):
-        text = open(o).read()
-        if rc != 0 or 'summary ' not in text:
-            check.obligation_broken('driver failed on %s' % t, text[-2000:])
-            continue
-        for line in text.splitlines():
-            if line.startswith('summary '):
-                for k, v in re.findall(r'(\w+)=([0-9]+)\b', line):
-                    if k in agg:
-                        agg[k] += int(v)
-                m = re.search(r'kinds=(\S+)', line)
-                if m:
-                    for kv in m.group(1).split(','):
-                        if ':' in kv:
-                            k, v = kv.split(':')
-                            kinds[k] = kinds.get(k, 0) + int(v)
-            elif 'corr=DIFF' in line or 'prop=FAIL' in line:
-                failing.append(line)
-    agg['kinds'] = kinds
-    return agg, failing
-
-
 def run(tier, seed, replay=None):
     check = Check('C13', tier, seed)
-    proved = prove(check, 'theories/Props_C13.v', THEOREMS)
-    ok, out = build_driver()
-    if not ok:
-        check.obligation_broken('extraction / driver build', out)
-    okh, outh = build_harness()
-    if not okh:
-        check.obligation_broken('harness does not build against the current /repo', outh)
-    traces = []
-    samples = []
-    if ok and okh:
-        os.makedirs(WORK, exist_ok=True)
-        hb = harness_bin()
-        cmds = []
-        if replay:
-            t = os.path.join(WORK, 'c13_replay.trace')
-            cmds.append(([hb, 'backoff', 'replay', replay], t))
-        else:
-            corpus = os.path.join(VERIF, 'corpus', 'C13')
-            for f in sorted(os.listdir(corpus)):
-                t = os.path.join(WORK, 'c13_corpus_%s.trace' % f)
-                cmds.append(([hb, 'backoff', 'replay', os.path.join(corpus, f)], t))
-            shards = NPROC
-            per = 100 if tier == 'quick' else 4000
-            for i in range(shards):
-                t = os.path.join(WORK, 'c13_gen_%d.trace' % i)
-                cmds.append(([hb, 'backoff', 'gen', str(seed * 1000 + i), str(per)], t))
-        rcs = run_parallel(cmds)
-        for (argv, t), rc in zip(cmds, rcs):
-            if rc != 0:
-                check.obligation_broken('harness run failed: %s' % ' '.join(argv), 'exit %s' % rc)
-            else:
-                traces.append(t)
-        agg, failing = judge(check, traces, 'c13')
-        # samples: first few cases of the first generated trace
-        for t in traces[-1:]:
-            lines = open(t).read().splitlines()
-            for i in range(0, min(len(lines), 8), 2):
-                samples.append(' / '.join(l[:200] for l in lines[i:i + 2]))
-        prop_fail = [l for l in failing if 'prop=FAIL' in l]
-        corr_only = [l for l in failing if 'prop=FAIL' not in l]
-        if prop_fail:
-            # replay file: the failing case lines (harness `backoff replay` format)
-            cases = []
-            for l in prop_fail[:20]:
-                m = re.search(r'\| (case [^|]+) \|', l)
-                if m:
-                    cases.append(m.group(1).strip())
-            path = write_replay('C13', 'failing_cases.txt', '\n'.join(cases) + '\n\n# verdicts\n' + '\n'.join(prop_fail[:20]) + '\n')
-            check.violation('%d case(s) where the real iterator deviates from the law / panics' % len(prop_fail), path)
-        if corr_only:
-            check.obligation_broken('correspondence: model and implementation differ on %d case(s) although the law is met' % len(corr_only),
-                                    '\n'.join(corr_only[:10]))
-        check.coverage.update({
-            'evaluations': agg['cases'],
-            'distinct_nontrivial': agg['nontrivial'],
-            'traces_validated_against_impl': agg['cases'] - agg['corr_fail'] - agg['skipped'],
-            'rule': 'configurations (strategy, factor, step, max_attempts, max_delay, calls) drawn from boundary values '
-                    '{0,1,2^31,2^32+-1,2^63,u64::MAX,Duration::MAX,...} and random ones, all from one seeded PRNG; '
-                    'each runs the real BackoffStrategy iterator for calls+1 calls; non-trivial = distinct configuration that yielded >= 2 attempts',
-            'samples': samples,
-            'input_distribution': {'strategies': agg['kinds'], 'saturated_items': agg['saturated_items'],
-                                   'clamped_items': agg['clamped_items'], 'exhausted_cases': agg['exhausted_cases'],
-                                   'outside_hypotheses_skipped': agg['skipped']},
-            'disagreements': agg['corr_fail'],
-            'property_failures': agg['prop_fail'],
-        })
+    prove(check, 'theories/Props_C13.v', THEOREMS)
+    differential(check, 'C13', 'backoff', 'c13', tier, seed, replay, 100, 4000, extract_between_bars)
+    check.coverage['rule'] = ('configurations (strategy, factor, step, max_attempts, max_delay, calls) drawn from boundary values '
+                              '{0,1,2^31,2^32+-1,2^63,u64::MAX,Duration::MAX,...} and random ones, all from one seeded PRNG; each runs the real '
+                              'BackoffStrategy iterator for calls+1 calls; non-trivial = distinct configuration that yielded >= 2 attempts')
     check.coverage['trusted_base'] = TRUSTED_BASE_COMMON + [
         'modelled, not verified: core::time::Duration and the u32/u64/u128 primitives (saturating_mul, checked_pow, checked_mul, try_from, Duration::new, min) as defined in theories/RustArith.v; validated on every run by the differential against the real iterator',
         'hypothesis of the theorems: max_attempts < u32::MAX (with max_attempts = u32::MAX the counter increment after the last attempt overflows; unreachable in practice: 4 billion attempts)',
     ]
-    check.assumptions = ['Duration modelled as total nanoseconds < 2^64 * 10^9', 'profile: harness built with overflow checks on (dev); theorems hold for both settings of `debug`']
+    check.assumptions = ['Duration modelled as total nanoseconds < 2^64 * 10^9',
+                         'harness built with overflow checks on (dev profile); the theorems hold for both settings of `debug`']
     return check.finish()
